@@ -268,3 +268,66 @@ Lemma h_cons_coord_g : forall s d x, QR (cons_coord_g Qops s d x) = cons_coord_g
 Proof.
   intros. unfold cons_coord_g. rewrite map_length, <- (h_weights (length x) 0). apply h_map2. intros. now homs.
 Qed.
+
+(* ---- everything together ---- *)
+Lemma model_transfer :
+  (* scalar structure: Q2R is an order embedding of ordered fields *)
+  (forall a b, o_ltb Qops a b = o_ltb Rops (Q2R a) (Q2R b)) /\
+  (* per-coefficient loss kernels (value, gradient) *)
+  (forall t o, Q2R (k_mse_v Qops t o) = k_mse_v Rops (Q2R t) (Q2R o)) /\ (forall t o, Q2R (k_mse_g Qops t o) = k_mse_g Rops (Q2R t) (Q2R o)) /\
+  (forall t o, Q2R (k_mae_v Qops t o) = k_mae_v Rops (Q2R t) (Q2R o)) /\ (forall t o, Q2R (k_mae_g Qops t o) = k_mae_g Rops (Q2R t) (Q2R o)) /\
+  (forall t o, Q2R (k_hinge_v Qops t o) = k_hinge_v Rops (Q2R t) (Q2R o)) /\ (forall t o, Q2R (k_hinge_g Qops t o) = k_hinge_g Rops (Q2R t) (Q2R o)) /\
+  (forall t o, Q2R (k_sqhinge_v Qops t o) = k_sqhinge_v Rops (Q2R t) (Q2R o)) /\ (forall t o, Q2R (k_sqhinge_g Qops t o) = k_sqhinge_g Rops (Q2R t) (Q2R o)) /\
+  (forall al t o, Q2R (k_pinball_v Qops al t o) = k_pinball_v Rops (Q2R al) (Q2R t) (Q2R o)) /\
+  (forall al t o, Q2R (k_pinball_g Qops al t o) = k_pinball_g Rops (Q2R al) (Q2R t) (Q2R o)) /\
+  (* a sample's loss and gradient, for any kernel pair related by Q2R *)
+  (forall kq kr, (forall t o, Q2R (kq t o) = kr (Q2R t) (Q2R o)) -> forall t o, Q2R (loss_v Qops kq t o) = loss_v Rops kr (QR t) (QR o)) /\
+  (forall kq kr, (forall t o, Q2R (kq t o) = kr (Q2R t) (Q2R o)) -> forall t o, QR (loss_g kq t o) = loss_g kr (QR t) (QR o)) /\
+  (* error rules *)
+  (forall t o, Q2R (err_absdiff Qops t o) = err_absdiff Rops (QR t) (QR o)) /\
+  (forall eps t o, err_count Qops eps t o = err_count Rops (Q2R eps) (QR t) (QR o)) /\
+  (forall eps t o, err_sclass Qops eps t o = err_sclass Rops (Q2R eps) (QR t) (QR o)) /\
+  (forall o, argmax Qops o = argmax Rops (QR o)) /\
+  (* benchmark functions (value, gradient) *)
+  (forall x, Q2R (sphere_v Qops x) = sphere_v Rops (QR x)) /\ (forall x, QR (sphere_g Qops x) = sphere_g Rops (QR x)) /\
+  (forall x, Q2R (axis_v Qops x) = axis_v Rops (QR x)) /\ (forall x, QR (axis_g Qops x) = axis_g Rops (QR x)) /\
+  (forall x, Q2R (schumer_v Qops x) = schumer_v Rops (QR x)) /\ (forall x, QR (schumer_g Qops x) = schumer_g Rops (QR x)) /\
+  (forall x, Q2R (chung_v Qops x) = chung_v Rops (QR x)) /\ (forall x, QR (chung_g Qops x) = chung_g Rops (QR x)) /\
+  (forall x, Q2R (sargan_v Qops x) = sargan_v Rops (QR x)) /\ (forall x, QR (sargan_g Qops x) = sargan_g Rops (QR x)) /\
+  (forall x, Q2R (zakharov_v Qops x) = zakharov_v Rops (QR x)) /\ (forall x, QR (zakharov_g Qops x) = zakharov_g Rops (QR x)) /\
+  (forall x, Q2R (qing_v Qops x) = qing_v Rops (QR x)) /\ (forall x, QR (qing_g Qops x) = qing_g Rops (QR x)) /\
+  (forall x, Q2R (styblinski_v Qops x) = styblinski_v Rops (QR x)) /\ (forall x, QR (styblinski_g Qops x) = styblinski_g Rops (QR x)) /\
+  (forall x, Q2R (trid_v Qops x) = trid_v Rops (QR x)) /\ (forall x, QR (trid_g Qops x) = trid_g Rops (QR x)) /\
+  (forall x, Q2R (rosenbrock_v Qops x) = rosenbrock_v Rops (QR x)) /\ (forall x, QR (rosenbrock_g Qops x) = rosenbrock_g Rops (QR x)) /\
+  (forall x, Q2R (dixon_v Qops x) = dixon_v Rops (QR x)) /\ (forall x, QR (dixon_g Qops x) = dixon_g Rops (QR x)) /\
+  (forall x, Q2R (chained_lq_v Qops x) = chained_lq_v Rops (QR x)) /\ (forall x, QR (chained_lq_g Qops x) = chained_lq_g Rops (QR x)) /\
+  (forall x, Q2R (rotated_v Qops x) = rotated_v Rops (QR x)) /\ (forall x, QR (rotated_g Qops x) = rotated_g Rops (QR x)) /\
+  (forall x, Q2R (maxq_v Qops x) = maxq_v Rops (QR x)) /\ (forall x, QR (maxq_g Qops x) = maxq_g Rops (QR x)) /\
+  (* constraints *)
+  (forall o r x, Q2R (cons_ball_v Qops o r x) = cons_ball_v Rops (QR o) (Q2R r) (QR x)) /\
+  (forall o x, QR (cons_ball_g Qops o x) = cons_ball_g Rops (QR o) (QR x)) /\
+  (forall q r x, Q2R (cons_linear_v Qops q r x) = cons_linear_v Rops (QR q) (Q2R r) (QR x)) /\
+  (forall q x, QR (cons_linear_g q x) = cons_linear_g (QR q) (QR x)) /\
+  (forall s v d x, Q2R (cons_coord_v Qops s v d x) = cons_coord_v Rops (Q2R s) (Q2R v) d (QR x)) /\
+  (forall s d x, QR (cons_coord_g Qops s d x) = cons_coord_g Rops (Q2R s) d (QR x)).
+Proof.
+  exact (conj h_ltb (conj h_mse_v (conj h_mse_g (conj h_mae_v (conj h_mae_g (conj h_hinge_v (conj h_hinge_g (conj h_sqhinge_v (conj h_sqhinge_g (conj h_pinball_v (conj h_pinball_g (conj h_loss_v (conj h_loss_g (conj h_err_absdiff (conj h_err_count (conj h_err_sclass (conj h_argmax (conj h_sphere_v (conj h_sphere_g (conj h_axis_v (conj h_axis_g (conj h_schumer_v (conj h_schumer_g (conj h_chung_v (conj h_chung_g (conj h_sargan_v (conj h_sargan_g (conj h_zakharov_v (conj h_zakharov_g (conj h_qing_v (conj h_qing_g (conj h_styblinski_v (conj h_styblinski_g (conj h_trid_v (conj h_trid_g (conj h_rosenbrock_v (conj h_rosenbrock_g (conj h_dixon_v (conj h_dixon_g (conj h_chained_lq_v (conj h_chained_lq_g (conj h_rotated_v (conj h_rotated_g (conj h_maxq_v (conj h_maxq_g (conj h_cons_ball_v (conj h_cons_ball_g (conj h_cons_linear_v (conj h_cons_linear_g (conj h_cons_coord_v h_cons_coord_g)))))))))))))))))))))))))))))))))))))))))))))))))).
+Qed.
+
+(* how the transfer is used: a theorem about [Rops] applies verbatim to what the driver computes with [Qops] on rational points;
+   e.g. the sub-gradient inequality of the extracted mae loss, read in R *)
+From LN Require Import C06_Proofs.
+Lemma transfer_mae_convex : forall t o o' : list Q, length o' = length o ->
+  Q2R (loss_v Qops (k_mae_v Qops) t o') >=
+  Q2R (loss_v Qops (k_mae_v Qops) t o) + Q2R (dot Qops (loss_g (k_mae_g Qops) t o) (vsub Qops o' o)).
+Proof.
+  intros t o o' H.
+  rewrite !(h_loss_v (k_mae_v Qops) (k_mae_v Rops) h_mae_v), h_dot, h_vsub, (h_loss_g (k_mae_g Qops) (k_mae_g Rops) h_mae_g).
+  apply loss_subgrad; [exact k_mae_subgrad | now rewrite !map_length].
+Qed.
+Lemma transfer_sphere_convex : forall x z : list Q, length z = length x ->
+  Q2R (sphere_v Qops z) >= Q2R (sphere_v Qops x) + Q2R (dot Qops (sphere_g Qops x) (vsub Qops z x))
+                           + 2 / 2 * Q2R (dot Qops (vsub Qops z x) (vsub Qops z x)).
+Proof.
+  intros x z H. rewrite !h_sphere_v, !h_dot, !h_vsub, h_sphere_g. apply sphere_convex. now rewrite !map_length.
+Qed.
